@@ -275,7 +275,14 @@ impl EnvX {
             ("if", [c, x]) => format!("{}if ({})\n{}", pad, self.spell_expr(c)?, self.spell_stmt(x, next, ind + 1)?),
             ("ifelse", [c, x, y]) => {
                 let cs = self.spell_expr(c)?;
-                let xs = self.spell_stmt(x, next, ind + 1)?;
+                // a then-branch that may end in an `if` without `else` is put in braces (dangling else); the typed
+                // statement is the same, because the body of an `if` shares the scope the `if` opened
+                let dangling = matches!(head(x), Some(("if" | "ifelse" | "for" | "while" | "switch" | "case" | "default", _)));
+                let xs = if dangling {
+                    format!("{}{{\n{}{}}}\n", pad, self.spell_stmt(x, next, ind + 1)?, pad)
+                } else {
+                    self.spell_stmt(x, next, ind + 1)?
+                };
                 let ys = self.spell_stmt(y, next, ind + 1)?;
                 format!("{}if ({})\n{}{}else\n{}", pad, cs, xs, pad, ys)
             }
